@@ -692,7 +692,8 @@ def _class_field(draw, fl: Flags, targets: list[str], abstracts: list[str]):
         if fl.nested_generics and fl.lists and draw(st.integers(0, 4)) == 0:
             # a list of lists of programs: both levels size-refined (two bare levels would allow up to
             # 10 x 10 subtrees per node, which no depth limit keeps affordable)
-            sized = fl.replace(bare_lists=False)
+            # (sizes up to 2 per level: two fields of 3 x 3 recursive subtrees made single cases run for minutes)
+            sized = fl.replace(bare_lists=False, max_list_size=min(2, fl.max_list_size))
             return draw(_list_of(sized, draw(_list_of(sized, elem))))
         return draw(_list_of(fl, elem))
     if k == "union":
